@@ -557,7 +557,12 @@ def _fix_mono(m, c):
 # --------------------------------------------------------------------------
 # atom constructors
 # --------------------------------------------------------------------------
+FORCED_ZERO = set()      # parameter names held at exactly 0 in a case-split re-run (see symtensor.SPLIT_LOG)
+
+
 def par(name):
+    if name in FORCED_ZERO:
+        return ZERO
     return P.of_atom(_mk("par", (name,), name=str(name)))
 
 
